@@ -307,6 +307,36 @@ Theorem c19_pipeline_complete : forall analysis c os r address pc rs a reg j,
 Proof. exact pipeline_complete. Qed.
 Print Assumptions c19_pipeline_complete.
 
+(* ---- from the raw records of the dump: processor_architecture, platform_id, the exception record ---- *)
+(* (Os / PlatformId / Cpu tables, the per-OS dispatch of CrashReason::from_exception and the error enums are regenerated;
+   get_crash_address and the relevant fragments of from_{windows,linux,mac}_exception are pinned by the translator) *)
+Theorem c19_dump_none_platform : forall analysis arch platform_id e pc rs,
+  ~ (arch = 9 \/ arch = 32770 \/ arch = 32772) ->
+  dump_pipeline analysis arch platform_id e pc rs = [].
+Proof. exact dump_none_platform. Qed.
+Print Assumptions c19_dump_none_platform.
+
+(* bits 48..64 (a recovered non-canonical address) are examined only for an AMD64 dump whose exception record has one
+   of the three general-protection-fault shapes: Windows EXCEPTION_ACCESS_VIOLATION/read at 0xffff_ffff_ffff_ffff, macOS
+   EXC_BAD_ACCESS/EXC_I386_GPFLT at 0, Linux SIGSEGV|SIGBUS/SI_KERNEL at 0 — for every instruction analysis *)
+Theorem c19_dump_noncanonical_shape : forall analysis arch platform_id e pc v,
+  dump_adj analysis arch platform_id e pc = GAdjNonCanonical v ->
+  arch = 9 /\ in_non_canonical v = true /\
+  let o := dump_os platform_id in
+  let address := dump_address arch platform_id e in
+  (o = GOsWindows /\ er_code e = WIN_EXCEPTION_ACCESS_VIOLATION /\ 1 <= er_nparams e /\ er_info0 e = WIN_ACCESS_READ /\ address = two64 - 1) \/
+  (o = GOsMacOs /\ er_code e = MAC_EXC_BAD_ACCESS /\ er_flags e = MAC_EXC_I386_GPFLT /\ address = 0) \/
+  (o = GOsLinux /\ (er_code e = LINUX_SIGSEGV \/ er_code e = LINUX_SIGBUS) /\ er_flags e = LINUX_SI_KERNEL /\ address = 0).
+Proof. exact dump_noncanonical_shape. Qed.
+Print Assumptions c19_dump_noncanonical_shape.
+
+(* ... in particular only for platform ids 2/3 (Windows), 0x8101 (macOS), 0x8201 (Linux): never Android, iOS, Solaris, ... *)
+Theorem c19_dump_noncanonical_os : forall analysis arch platform_id e pc v,
+  dump_adj analysis arch platform_id e pc = GAdjNonCanonical v ->
+  platform_id = 2 \/ platform_id = 3 \/ platform_id = 33025 \/ platform_id = 33281.
+Proof. exact dump_noncanonical_os. Qed.
+Print Assumptions c19_dump_noncanonical_os.
+
 (* ---- non-vacuity ---- *)
 Example c19_nonvacuous_flip :
   let rs := [region_of_info 524288 8 0] in
@@ -351,3 +381,14 @@ Example c19_nonvacuous_noncanonical :
       (pipeline (analyze_dinstr nv_di) GX86_64 OsWindows (RWinAccessViolation 0) (two64 - 1) (Some pc) rs)
     = [(140737488351232, None, true)].
 Proof. split; vm_compute; reflexivity. Qed.
+
+(* the raw-record path: an AMD64 / Linux dump with SIGSEGV / SI_KERNEL at address 0 whose instruction accesses a
+   non-canonical address: adjusted, bit 48 flipped back *)
+Example c19_nonvacuous_dump :
+  let rs := [region_of_info 140737488351232 4096 4] in
+  let pc := nv_pc (140737488351232 + 281474976710656 - 8) in
+  let e := {| er_code := 11; er_flags := 128; er_nparams := 0; er_info0 := 0; er_info1 := 0; er_address := 0 |} in
+  dump_adj (analyze_dinstr nv_di) 9 33281 e (Some pc) = GAdjNonCanonical (140737488351232 + 281474976710656) /\
+  map f_addr (dump_pipeline (analyze_dinstr nv_di) 9 33281 e (Some pc) rs) = [140737488351232] /\
+  dump_adj (analyze_dinstr nv_di) 9 33283 e (Some pc) = GAdjNone.      (* the same record from Android: no adjustment *)
+Proof. repeat split; vm_compute; reflexivity. Qed.
